@@ -85,6 +85,7 @@ type EthRec struct {
 	Code uint32                 `json:"code"`
 	Log  string                 `json:"log"`
 	St   EthState               `json:"st"`
+	Cdig string                 `json:"cdig"` // digest of the whole client sub-store of the chain (determinism, C20)
 	Info map[string]interface{} `json:"info"`
 }
 
@@ -498,7 +499,7 @@ func (r *ethRunner) emit(raw json.RawMessage, code uint32, log string, info map[
 	if info == nil {
 		info = map[string]interface{}{"none": 0}
 	}
-	r.out(&EthRec{Tr: r.tr, I: r.i, Ev: raw, Code: code, Log: log, St: r.project(), Info: info})
+	r.out(&EthRec{Tr: r.tr, I: r.i, Ev: raw, Code: code, Log: log, St: r.project(), Cdig: r.n.ClientDigest("A"), Info: info})
 	r.i++
 }
 
